@@ -1,0 +1,83 @@
+//go:build verif
+
+package optimizer
+
+// Specification vocabulary and contracts checked by /verif/hvc (build tag
+// verif only; see /verif/DESIGN.md, C19).
+
+/*@ assume-pure analyzer/ast.AnalyzedStatement.Type nonnil @*/
+
+/*@ assume-pure analyzer/ast.AnalyzedExpression.Type nonnil @*/
+
+/*@ template for (o *Optimizer) *
+    except Optimize
+    serves C19
+    assume-safety
+@*/
+
+// The statement and expression passes are the identity.
+
+/*@ func (o *Optimizer) optStatement
+    ensures @identity result == node
+    ensures @silent len(o.diagnostics) == old(len(o.diagnostics))
+@*/
+
+/*@ func (o *Optimizer) optExpression
+    ensures @identity result == node
+    ensures @silent len(o.diagnostics) == old(len(o.diagnostics))
+@*/
+
+// The only rewrite: a block keeps its statements up to and including the
+// first one that cannot complete normally (type `never`) and drops the rest;
+// everything else - order, the trailing expression - is unchanged. (That a
+// statement of type `never` never completes normally is the analyzer's
+// typing rule; it is what makes the dropped suffix dead.)
+
+/*@ func (o *Optimizer) block
+    ensures @kept-prefix len(result.Statements) <= len(node.Statements) && forall i in 0..len(result.Statements) :: result.Statements[i] == node.Statements[i]
+    ensures @cut-only-after-a-diverging-statement len(result.Statements) < len(node.Statements) ==> len(result.Statements) > 0 && node.Statements[len(result.Statements)-1].Type().Kind() == ast.NeverTypeKind
+    ensures @nothing-kept-after-divergence forall i in 0..len(result.Statements)-1 :: node.Statements[i].Type().Kind() != ast.NeverTypeKind
+    ensures @trailing-expression-kept result.Expression == node.Expression && result.Range == node.Range
+    ensures @no-errors forall i in old(len(o.diagnostics))..len(o.diagnostics) :: o.diagnostics[i].Level != diagnostic.DiagnosticLevelError
+    loop 1 invariant len(statements) <= rangeindex() && (cap(statements) == 0 || fresh(statements))
+    loop 1 invariant forall i in 0..len(statements) :: statements[i] == node.Statements[i]
+    loop 1 invariant !warnedUnreachable ==> len(statements) == rangeindex()
+    loop 1 invariant warnedUnreachable ==> unreachableSpan != nil && len(statements) < rangeindex()
+    loop 1 invariant unreachableSpan != nil ==> len(statements) > 0 && node.Statements[len(statements)-1].Type().Kind() == ast.NeverTypeKind
+    loop 1 invariant unreachableSpan == nil ==> forall i in 0..len(statements) :: node.Statements[i].Type().Kind() != ast.NeverTypeKind
+    loop 1 invariant forall i in 0..len(statements)-1 :: node.Statements[i].Type().Kind() != ast.NeverTypeKind
+    loop 1 invariant forall i in old(len(o.diagnostics))..len(o.diagnostics) :: o.diagnostics[i].Level != diagnostic.DiagnosticLevelError
+    loop 1 invariant len(o.diagnostics) >= old(len(o.diagnostics))
+@*/
+
+/*@ func (o *Optimizer) warn
+    ensures @appended len(o.diagnostics) == old(len(o.diagnostics))+1 && o.diagnostics[len(o.diagnostics)-1].Level == diagnostic.DiagnosticLevelWarning
+    ensures @earlier-kept forall i in 0..old(len(o.diagnostics)) :: o.diagnostics[i].Level == old(o.diagnostics[i].Level)
+@*/
+
+/*@ func (o *Optimizer) hint
+    ensures @appended len(o.diagnostics) == old(len(o.diagnostics))+1 && o.diagnostics[len(o.diagnostics)-1].Level == diagnostic.DiagnosticLevelHint
+    ensures @earlier-kept forall i in 0..old(len(o.diagnostics)) :: o.diagnostics[i].Level == old(o.diagnostics[i].Level)
+@*/
+
+/*@ func (o *Optimizer) optimizeFn
+    assumepre block
+    ensures @signature-kept result.Ident == node.Ident && result.ReturnType == node.ReturnType && result.Modifier == node.Modifier && result.Range == node.Range
+    ensures @parameters-kept len(result.Parameters.List) == len(node.Parameters.List) && forall i in 0..len(node.Parameters.List) :: result.Parameters.List[i] == node.Parameters.List[i]
+    loop 1 invariant len(newParams.List) == len(node.Parameters.List) && fresh(newParams.List) && forall i in 0..rangeindex() :: newParams.List[i] == node.Parameters.List[i]
+@*/
+
+/*@ func (o *Optimizer) analyzeModule
+    assumepre optimizeFn
+    ensures @functions-kept-in-order len(result.Functions) == len(module.Functions) && forall i in 0..len(module.Functions) :: result.Functions[i].Ident == module.Functions[i].Ident
+    loop 1 invariant len(functionsOut) == rangeindex() && (cap(functionsOut) == 0 || fresh(functionsOut)) && forall i in 0..rangeindex() :: functionsOut[i].Ident == module.Functions[i].Ident
+@*/
+
+/*@ func (o *Optimizer) Optimize
+    serves C19
+    assume-safety
+    assumepre analyzeModule
+    ensures @no-module-invented forall k string in keys(modules) :: haskey(analyzedModule, k)
+    loop 1 invariant fresh(modulesOut)
+    loop 1 invariant forall k string in keys(modulesOut) :: haskey(analyzedModule, k)
+@*/
